@@ -114,6 +114,9 @@ def run(prog, ctx):
     check_stitching(prog, ctx)
     check_modified_small_cases(prog, ctx, cw)
     check_round2(prog, ctx)
+    # ------------------------------------------------------------------ D8: the moments of the orthogonal polynomials are integrated exactly
+    from ..gauss import check_sites
+    ctx.floor("C09.D8", check_sites(prog, ctx, "C09.D8", "Grid", "moments"), 1, "Gauss rules chosen for the moments of the high-order grid")
 
     # ------------------------------------------------------------------ D2
     cq = prog.func(GT + ".compute_1D_quad_weights")
